@@ -112,11 +112,11 @@ CHECKS = {
     },
     "C18": {
         "groups": [
-            {"pkg": "Havoc/pkg/profile/yaotl/hclsyntax", "entries": ["H_c18_template"], "shards": 10, "flags": ["-tags", "nohint", "-init", "Havoc/pkg/profile/yaotl,golang.org/x/text/unicode/norm,github.com/zclconf/go-cty/...,math/big,github.com/agext/levenshtein"]},
-            {"pkg": "Havoc/pkg/profile/yaotl/hclsyntax", "entries": ["H_c18_access"], "shards": 6, "flags": ["-tags", "nohint", "-init", "Havoc/pkg/profile/yaotl,golang.org/x/text/unicode/norm,github.com/zclconf/go-cty/...,math/big,github.com/agext/levenshtein"]},
+            {"pkg": "Havoc/pkg/profile/yaotl/hclsyntax", "entries": ["H_c18_template"], "shards": 11, "flags": ["-tags", "nohint", "-init", "Havoc/pkg/profile/yaotl,golang.org/x/text/unicode/norm,github.com/zclconf/go-cty/...,math/big,github.com/agext/levenshtein"]},
+            {"pkg": "Havoc/pkg/profile/yaotl/hclsyntax", "entries": ["H_c18_access"], "shards": 7, "flags": ["-tags", "nohint", "-init", "Havoc/pkg/profile/yaotl,golang.org/x/text/unicode/norm,github.com/zclconf/go-cty/...,math/big,github.com/agext/levenshtein"]},
             {"pkg": "Havoc/pkg/profile/yaotl/hclsyntax", "entries": ["H_c18_binary"], "shards": 4, "flags": ["-tags", "nohint", "-init", "Havoc/pkg/profile/yaotl,golang.org/x/text/unicode/norm,github.com/zclconf/go-cty/...,math/big,github.com/agext/levenshtein"]},
         ],
-        "bounds": "binary operators: x S1 y S2 z where each operator slot is two arbitrary bytes (all 13 binary operators, either blank placement for one-character operators) over four operand environments (numbers 12,4,2; 7,7,3; number/bool/number; three booleans), as written and with redundant parentheses around the sub-expression that binds first: value prescribed by the six precedence levels, left associativity and the typing rules, or an error diagnostic for ill-typed / division by zero. Access: one arbitrary digit as a source byte in tuple index, attribute name, string key, conditional, for-expression filter and index into a parenthesised splat result. Templates: arbitrary literal characters and an arbitrary two-character ASCII string variable in interpolation, strip markers (next to a literal, and separated from it by another sequence), if/else, if without else, for directive, heredoc and indented heredoc.",
+        "bounds": "binary operators: x S1 y S2 z where each operator slot is two arbitrary bytes (all 13 binary operators, either blank placement for one-character operators) over four operand environments (numbers 12,4,2; 7,7,3; number/bool/number; three booleans), as written and with redundant parentheses around the sub-expression that binds first: value prescribed by the six precedence levels, left associativity and the typing rules, or an error diagnostic for ill-typed / division by zero. Access: one arbitrary digit as a source byte in tuple index, attribute name, string key, conditional, for-expression filter, index into a parenthesised splat result, and a splat over null compared with it. Templates: arbitrary literal characters and an arbitrary two-character ASCII string variable in interpolation, strip markers (next to a literal, and separated from it by another sequence), if/else, if without else, for directive, heredoc, indented heredoc, and an indented heredoc with a line that starts with an interpolation.",
         "outside": "expression trees beyond the listed shapes (nesting deeper than two operators, function calls, user functions, try/can), numbers other than small integers (quotients without finite binary expansion are not compared), unknown and null values, marks, for-expressions with grouping, object-for, non-ASCII text, equality across collection types; the reference semantics are transcribed from the HCL native syntax specification in the harness",
         "min_completed": 3,
     },
@@ -170,7 +170,7 @@ CHECKS = {
             {"pkg": "Havoc/cmd/server", "with": SRV_WITH, "entries": ["H_c09_died", "H_c09_markdead"]},
             {"pkg": "Havoc/cmd/server", "with": SRV_WITH, "entries": ["H_c09_event"], "shards": 4},
         ],
-        "bounds": "death: all forests over 3 agents plus stars/chains over 4 and 5 agents (an agent with up to 4 links), victim any of them; mark dead/alive events and pivot events (connect naming any 32-bit id with a truncated registration, disconnect, exit, kill date, arbitrary short pivot callback) from every forest over 3 agents.",
+        "bounds": "death: all forests over 3 agents (two of the five ids in the universe have the top bit set) plus stars/chains over 4 and 5 agents (an agent with up to 4 links), victim any of them; mark dead/alive events and pivot events (connect naming any 32-bit id with a truncated registration, disconnect, exit, kill date, arbitrary short pivot callback) from every forest over 3 agents.",
         "outside": "SQLite itself (TS_Links is a set-of-pairs model of the statements in pkg/db/links.go); more than 3 agents",
         "min_completed": 3,
     },
